@@ -1311,10 +1311,18 @@ class Function(Ring):
     def vecsym(self):
         return Function.pushforward(algopy.vecsym, [self])
 
-    def reshape(self, *shape):
-        # x.reshape((2,3)) and x.reshape(2,3), as ndarray.reshape
-        if len(shape) == 1:
+    def reshape(self, *shape, **kwargs):
+        # x.reshape((2,3)), x.reshape(2,3) (as ndarray.reshape) and
+        # reshape(x, (2,3), 'C') (as numpy.reshape), as UTPM.reshape
+        order = kwargs.pop('order', 'C')
+        if kwargs:
+            raise TypeError('unexpected keyword arguments %s'%list(kwargs))
+        if len(shape) == 2 and isinstance(shape[1], str):
+            shape, order = shape
+        elif len(shape) == 1:
             shape = shape[0]
+        if order != 'C':
+            raise NotImplementedError('should implement that')
         return Function.pushforward(algopy.reshape, [self, shape])
 
     T = property(transpose)
